@@ -805,21 +805,29 @@ func (hv *Hash) At(i int) px.Value {
 
 func (hv *Hash) Delete(key px.Value) px.List {
 	if idx, ok := hv.valueIndex()[px.ToKey(key)]; ok {
-		return WrapHash(append(hv.entries[:idx], hv.entries[idx+1:]...))
+		entries := make([]*HashEntry, 0, len(hv.entries)-1)
+		entries = append(entries, hv.entries[:idx]...)
+		return WrapHash(append(entries, hv.entries[idx+1:]...))
 	}
 	return hv
 }
 
 func (hv *Hash) DeleteAll(keys px.List) px.List {
-	entries := hv.entries
 	valueIndex := hv.valueIndex()
+	deleted := make(map[int]bool, keys.Len())
 	keys.Each(func(key px.Value) {
 		if idx, ok := valueIndex[px.ToKey(key)]; ok {
-			entries = append(hv.entries[:idx], hv.entries[idx+1:]...)
+			deleted[idx] = true
 		}
 	})
-	if len(hv.entries) == len(entries) {
+	if len(deleted) == 0 {
 		return hv
+	}
+	entries := make([]*HashEntry, 0, len(hv.entries)-len(deleted))
+	for idx, entry := range hv.entries {
+		if !deleted[idx] {
+			entries = append(entries, entry)
+		}
 	}
 	return WrapHash(entries)
 }
